@@ -1,8 +1,810 @@
-//! C08 — not implemented yet.
+//! C08 — built-in functions return their specified value for all arguments; named = positional.
+//! Also the built-in part of C05(a): no built-in panics (every call runs under `guarded`).
+//!
+//! Implementation: `parse + evaluate` of the FEEL texts `f(a1, …)` and `f(p1: a1, …)`.
+//! Model: `(c08 call checked <name> positional|named …)` — the regenerated dispatch tables
+//! interpreted over `Dmn.Bif.core_*`.  Specification: `(c08 spec <name> …)` — `Dmn.Spec.apply`.
+//!
+//! Compared: implementation = model (ImplVsModel, exact representation, panics included),
+//! implementation = specification (ImplVsSpec, numbers by value), named = positional on the
+//! implementation alone (ImplVsSpec), no panic (ImplVsSpec `panic in <bif>`).
 
-use crate::report::Report;
+use crate::model::Model;
+use crate::report::{Kind, Report};
+use crate::rng::Rng;
+use crate::sexp::Sexp;
+use crate::util::guarded;
+use crate::vals::value_sexp;
 use crate::Cfg;
+use dmntk_feel::values::Value;
+use dmntk_feel::Scope;
+use serde_json::json;
+use std::collections::HashMap;
 
-pub fn run(_cfg: &Cfg) -> Report {
-  Report::new("C08", "not implemented")
+/// parameter names of the specification (mirrors `Dmn.Spec.signatures` for the functions of C08)
+fn signature(bif: &str) -> Option<(Vec<&'static str>, usize)> {
+  Some(match bif {
+    "substring" => (vec!["string", "start position", "length"], 2),
+    "string length" => (vec!["string"], 1),
+    "substring before" | "substring after" | "contains" | "starts with" | "ends with" => (vec!["string", "match"], 2),
+    "replace" => (vec!["input", "pattern", "replacement", "flags"], 3),
+    "matches" => (vec!["input", "pattern", "flags"], 2),
+    "split" => (vec!["string", "delimiter"], 2),
+    "list contains" => (vec!["list", "element"], 2),
+    "count" | "min" | "max" | "sum" | "mean" | "all" | "any" | "reverse" | "distinct values" | "flatten" | "median" | "stddev" | "mode" => (vec!["list"], 1),
+    "sublist" => (vec!["list", "start position", "length"], 2),
+    "insert before" => (vec!["list", "position", "newItem"], 3),
+    "remove" => (vec!["list", "position"], 2),
+    "index of" => (vec!["list", "match"], 2),
+    "sort" => (vec!["list", "precedes"], 2),
+    "get value" => (vec!["m", "key"], 2),
+    "get entries" => (vec!["m"], 1),
+    "not" => (vec!["negand"], 1),
+    "number" => (vec!["from", "grouping separator", "decimal separator"], 3),
+    "string" => (vec!["from"], 1),
+    _ => return None,
+  })
+}
+
+pub const BIFS: &[&str] = &[
+  "substring", "string length", "contains", "starts with", "ends with", "substring before", "substring after", "matches", "replace", "split",
+  "count", "min", "max", "sum", "mean", "median", "mode", "stddev", "all", "any", "sublist", "append", "concatenate", "insert before", "remove",
+  "reverse", "index of", "union", "distinct values", "flatten", "sort", "list contains", "get value", "get entries", "not", "number", "string",
+];
+
+#[derive(Clone)]
+struct Call {
+  bif: &'static str,
+  args: Vec<String>,
+  family: &'static str,
+}
+
+fn lit_str(s: &str) -> String {
+  let mut out = String::from("\"");
+  for c in s.chars() {
+    match c {
+      '"' => out.push_str("\\\""),
+      '\\' => out.push_str("\\\\"),
+      c => out.push(c),
+    }
+  }
+  out.push('"');
+  out
+}
+
+const CHARS: &[char] = &['a', 'b', 'c', 'A', ' ', 'é', 'ß', '日', '\u{FB03}', '🙏', '🐎', '𝄞', '"', '1', '.', ','];
+
+fn rand_string(rng: &mut Rng, max: u64) -> String {
+  let len = rng.below(max + 1);
+  (0..len).map(|_| *rng.pick(CHARS)).collect()
+}
+
+fn fixed_strings() -> Vec<String> {
+  ["", "a", "ab", "abc", "foobar", "a🙏c", "é日🙏", " x ", "🙏🙏", "🙏a🐎b𝄞c日é", "aaa", "abab", "a\"b", "日本語テキスト", "ab🙏ab🙏"].iter().map(|s| s.to_string()).collect()
+}
+
+/// scalar literals used as list items / wrong-type arguments
+fn scalar_pool() -> Vec<&'static str> {
+  vec!["null", "true", "false", "0", "1", "2", "3", "-1", "1.0", "1.5", "2.50", "10", "\"a\"", "\"b\"", "\"\"", "\"🙏\"", "\"é\""]
+}
+
+fn rand_item(rng: &mut Rng, depth: u32) -> String {
+  let k = rng.below(if depth == 0 { 17 } else { 22 });
+  match k {
+    0..=16 => scalar_pool()[k as usize].to_string(),
+    17 | 18 | 19 => rand_list(rng, 3, depth - 1),
+    20 => format!("{{a: {}}}", rand_item(rng, depth - 1)),
+    _ => format!("{{a: {}, b: {}}}", rand_item(rng, depth - 1), rand_item(rng, depth - 1)),
+  }
+}
+
+fn rand_list(rng: &mut Rng, max: u64, depth: u32) -> String {
+  let len = rng.below(max + 1);
+  let mut items: Vec<String> = vec![];
+  for _ in 0..len {
+    if !items.is_empty() && rng.chance(1, 4) {
+      // a duplicate
+      let d = rng.pick(&items).clone();
+      items.push(d);
+    } else {
+      items.push(rand_item(rng, depth));
+    }
+  }
+  format!("[{}]", items.join(", "))
+}
+
+fn list_of_len(rng: &mut Rng, len: usize) -> String {
+  let mut items: Vec<String> = vec![];
+  for _ in 0..len {
+    if !items.is_empty() && rng.chance(1, 4) {
+      let d = rng.pick(&items).clone();
+      items.push(d);
+    } else {
+      items.push(rand_item(rng, 1));
+    }
+  }
+  format!("[{}]", items.join(", "))
+}
+
+/// every position / length from -(n+2) to n+2, non-integers, integers written with a fraction, bounds of usize / isize
+fn positions(n: usize) -> Vec<String> {
+  let n = n as i64;
+  let mut v: Vec<String> = (-(n + 2)..=(n + 2)).map(|i| i.to_string()).collect();
+  for s in ["1.5", "0.5", "-1.5", "2.0", "1.0", "-1.0", "-0", "0.0", "1.00"] {
+    v.push(s.to_string());
+  }
+  v
+}
+
+fn extreme_numbers() -> Vec<&'static str> {
+  vec![
+    "18446744073709551615",
+    "18446744073709551616",
+    "18446744073709551614",
+    "9223372036854775807",
+    "9223372036854775808",
+    "-9223372036854775808",
+    "-9223372036854775809",
+    "-18446744073709551615",
+    "1000000000000000000000000000000",
+    "-1000000000000000000000000000000",
+    "0.000000001",
+  ]
+}
+
+fn generate(rng: &mut Rng, thorough: bool) -> Vec<Call> {
+  let mut calls: Vec<Call> = vec![];
+  let mut add = |bif: &'static str, args: Vec<String>, family: &'static str| calls.push(Call { bif, args, family });
+  let scale = if thorough { 6 } else { 1 };
+
+  // ---------------------------------------------------------------- substring: all positions × lengths
+  let mut strings = fixed_strings();
+  for _ in 0..(6 * scale) {
+    strings.push(rand_string(rng, 8));
+  }
+  for s in &strings {
+    let n = s.chars().count();
+    if n > 8 {
+      continue;
+    }
+    let ps = positions(n);
+    for p in &ps {
+      add("substring", vec![lit_str(s), p.clone()], "substring2");
+      add("substring", vec![lit_str(s), p.clone(), "null".into()], "substring3null");
+      for l in &ps {
+        // the full grid for short strings, a sample for longer ones
+        if n <= 3 || rng.chance(1, 4) {
+          add("substring", vec![lit_str(s), p.clone(), l.clone()], "substring3");
+        }
+      }
+    }
+    for x in extreme_numbers() {
+      add("substring", vec![lit_str(s), x.into()], "substring-extreme");
+      add("substring", vec![lit_str(s), "1".into(), x.into()], "substring-extreme");
+      add("substring", vec![lit_str(s), "2".into(), x.into()], "substring-extreme");
+      add("substring", vec![lit_str(s), "-1".into(), x.into()], "substring-extreme");
+      add("substring", vec![lit_str(s), x.into(), x.into()], "substring-extreme");
+    }
+    add("string length", vec![lit_str(s)], "string length");
+  }
+
+  // ---------------------------------------------------------------- two-string functions
+  for s in &strings {
+    let cs: Vec<char> = s.chars().collect();
+    let mut ms: Vec<String> = vec!["".into(), s.clone(), format!("{}x", s), "zz".into(), "🙏".into()];
+    for _ in 0..4 {
+      if !cs.is_empty() {
+        let a = rng.below(cs.len() as u64) as usize;
+        let b = a + rng.below((cs.len() - a) as u64 + 1) as usize;
+        ms.push(cs[a..b].iter().collect());
+      }
+    }
+    for m in &ms {
+      for f in ["contains", "starts with", "ends with", "substring before", "substring after"] {
+        add(f, vec![lit_str(s), lit_str(m)], "string-pair");
+      }
+      // literal patterns only (the model and the specification cover nothing else)
+      add("matches", vec![lit_str(s), lit_str(m)], "regex-literal");
+      add("split", vec![lit_str(s), lit_str(m)], "regex-literal");
+      for r in ["", "X", "xy", "$1", "[$0]", "$$", "$12a", "$a", " "] {
+        add("replace", vec![lit_str(s), lit_str(m), lit_str(r)], "regex-literal");
+      }
+      for fl in ["\"\"", "\"q\"", "\"i\"", "\"sm\"", "\"qi\"", "\"qx\"", "null"] {
+        add("replace", vec![lit_str(s), lit_str(m), lit_str("X"), fl.into()], "regex-flags");
+      }
+    }
+  }
+
+  // ---------------------------------------------------------------- positions in lists
+  let mut lists: Vec<String> = vec![];
+  for len in 0..=8usize {
+    for _ in 0..(2 * scale) {
+      lists.push(list_of_len(rng, len));
+    }
+  }
+  for l in &lists {
+    let n = l.matches(',').count(); // upper bound good enough for the grid; exact length below
+    let _ = n;
+  }
+  let scope = Scope::default();
+  for l in &lists {
+    let n = match crate::c09::eval_text(&scope, l) {
+      Value::List(v) => v.as_vec().len(),
+      _ => continue,
+    };
+    let ps = positions(n);
+    for p in &ps {
+      add("sublist", vec![l.clone(), p.clone()], "sublist2");
+      add("remove", vec![l.clone(), p.clone()], "remove");
+      add("insert before", vec![l.clone(), p.clone(), rand_item(rng, 1)], "insert before");
+      for k in &ps {
+        if n <= 3 || rng.chance(1, 5) {
+          add("sublist", vec![l.clone(), p.clone(), k.clone()], "sublist3");
+        }
+      }
+    }
+    for x in extreme_numbers() {
+      add("sublist", vec![l.clone(), x.into()], "list-extreme");
+      add("sublist", vec![l.clone(), "1".into(), x.into()], "list-extreme");
+      add("sublist", vec![l.clone(), "2".into(), x.into()], "list-extreme");
+      add("sublist", vec![l.clone(), "-1".into(), x.into()], "list-extreme");
+      add("sublist", vec![l.clone(), x.into(), "1".into()], "list-extreme");
+      add("remove", vec![l.clone(), x.into()], "list-extreme");
+      add("insert before", vec![l.clone(), x.into(), "0".into()], "list-extreme");
+    }
+    for f in ["count", "reverse", "distinct values", "flatten"] {
+      add(f, vec![l.clone()], "list-unary");
+    }
+    for _ in 0..3 {
+      let e = rand_item(rng, 1);
+      add("index of", vec![l.clone(), e.clone()], "list-element");
+      add("list contains", vec![l.clone(), e], "list-element");
+    }
+    add("append", vec![l.clone(), rand_item(rng, 1)], "append");
+    add("append", vec![l.clone(), rand_item(rng, 1), rand_item(rng, 1)], "append");
+    let other = rng.pick(&lists).clone();
+    add("concatenate", vec![l.clone(), other.clone()], "concatenate");
+    add("union", vec![l.clone(), other.clone()], "union");
+    add("union", vec![l.clone(), other, rand_list(rng, 3, 1)], "union");
+    add("concatenate", vec![l.clone()], "concatenate");
+    add("sort", vec![l.clone(), "function(x,y) x < y".into()], "sort");
+  }
+  // items taken from the list itself
+  for l in ["[1, 2, 1.0, \"a\", null, [1], [1.0], {a: 1}]", "[null, null]", "[[1, 2], [1, 2.0], [2, 1]]", "[{a: 1}, {a: 1.0}, {b: 1}]"] {
+    for e in ["1", "1.0", "2", "\"a\"", "null", "[1]", "[1.00]", "{a: 1}", "{a: 1.0}", "[1, 2]", "true"] {
+      add("index of", vec![l.into(), e.into()], "list-element");
+      add("list contains", vec![l.into(), e.into()], "list-element");
+    }
+    add("distinct values", vec![l.into()], "list-unary");
+    add("union", vec![l.into(), l.into()], "union");
+  }
+  add("flatten", vec!["[[1, [2, [3, [4, []]]]], 5, [[]], [[6]]]".into()], "list-unary");
+  add("sort", vec!["[3, 1, 2, 1.0, 3.0]".into(), "function(x,y) x < y".into()], "sort");
+  add("sort", vec!["[3, 1, 2]".into(), "function(x,y) x > y".into()], "sort");
+  add("sort", vec!["[\"b\", \"a\", \"c\"]".into(), "function(a,b) a < b".into()], "sort");
+  add("sort", vec!["[3, 1, 2]".into(), "function(x) x".into()], "sort");
+  add("sort", vec!["[3, 1, 2]".into(), "1".into()], "sort");
+
+  // ---------------------------------------------------------------- three-valued all / any: every list over {true,false,null,1} up to length 3
+  let tv = ["true", "false", "null", "1"];
+  let mut tuples: Vec<Vec<&str>> = vec![vec![]];
+  let mut frontier: Vec<Vec<&str>> = vec![vec![]];
+  for _ in 0..3 {
+    let mut next = vec![];
+    for t in &frontier {
+      for x in tv {
+        let mut u = t.clone();
+        u.push(x);
+        next.push(u);
+      }
+    }
+    tuples.extend(next.iter().cloned());
+    frontier = next;
+  }
+  for t in &tuples {
+    for f in ["all", "any"] {
+      add(f, vec![format!("[{}]", t.join(", "))], "three-valued");
+      if !t.is_empty() {
+        add(f, t.iter().map(|s| s.to_string()).collect(), "three-valued-varargs");
+      }
+    }
+  }
+  for f in ["all", "any"] {
+    for x in ["true", "false", "null", "1", "\"a\"", "[[true]]"] {
+      add(f, vec![x.into()], "three-valued");
+    }
+  }
+
+  // ---------------------------------------------------------------- aggregates
+  let nums = ["0", "1", "2", "3", "6", "-1", "-2.5", "1.0", "1.5", "2.50", "10", "100", "0.25", "7", "-0", "4"];
+  for _ in 0..(60 * scale) {
+    let len = rng.below(9);
+    let mut items: Vec<String> = (0..len).map(|_| rng.pick(&nums).to_string()).collect();
+    if rng.chance(1, 6) && !items.is_empty() {
+      let i = rng.below(items.len() as u64) as usize;
+      items[i] = rng.pick(&["null", "true", "\"a\"", "[1]"]).to_string();
+    }
+    let l = format!("[{}]", items.join(", "));
+    for f in ["min", "max", "sum", "mean", "median", "mode", "stddev", "count"] {
+      add(f, vec![l.clone()], "aggregate");
+      if !items.is_empty() && f != "count" {
+        add(f, items.clone(), "aggregate-varargs");
+      }
+    }
+  }
+  // operands whose exact sum / quotient needs more than 34 digits (the model rounds half-even as decimal128 does)
+  let wide = ["9999999999999999999999999999999999", "1234567890123456789012345678901234", "0.0000000000000000000000000000000001", "5", "0.5", "3", "7", "1E+10", "-9999999999999999999999999999999999", "0.1234567890123456789012345678901234"];
+  for _ in 0..(25 * scale) {
+    let len = 1 + rng.below(5);
+    let items: Vec<String> = (0..len).map(|_| rng.pick(&wide).to_string()).filter(|x| !x.contains('E')).collect();
+    if items.is_empty() {
+      continue;
+    }
+    let l = format!("[{}]", items.join(", "));
+    // not stddev: decNumber's power(x, 2) is not the correctly rounded product for 34-digit operands
+    for f in ["sum", "mean", "median", "min", "max", "mode"] {
+      add(f, vec![l.clone()], "aggregate-wide");
+    }
+  }
+  for _ in 0..(15 * scale) {
+    let len = rng.below(6);
+    let mut items: Vec<String> = (0..len).map(|_| lit_str(&rand_string(rng, 3))).collect();
+    if rng.chance(1, 5) && !items.is_empty() {
+      let i = rng.below(items.len() as u64) as usize;
+      items[i] = rng.pick(&["null", "1"]).to_string();
+    }
+    let l = format!("[{}]", items.join(", "));
+    for f in ["min", "max", "sum", "mean"] {
+      add(f, vec![l.clone()], "aggregate-strings");
+    }
+  }
+  for l in ["[1, null, 3]", "[null, 1]", "[1, 3, null]", "[\"a\", null, \"b\"]", "[null]", "[1, \"a\"]", "[[1, 2]]", "[1, 2, 6]"] {
+    for f in ["min", "max", "sum", "mean", "median", "mode", "stddev"] {
+      add(f, vec![l.into()], "aggregate");
+    }
+  }
+
+  // ---------------------------------------------------------------- contexts, not, number, string
+  let ctxs = ["{}", "{a: 1}", "{a: 1, b: \"x\"}", "{b: 2, a: 1}", "{a: null}", "{a: {b: [1, 2]}}", "{\"a b\": 1, c: [true]}"];
+  for c in ctxs {
+    add("get entries", vec![c.into()], "context");
+    for k in ["\"a\"", "\"b\"", "\"c\"", "\"a b\"", "\" a \"", "\"\"", "1", "null", "\"A\""] {
+      add("get value", vec![c.into(), k.into()], "context");
+    }
+    add("string", vec![c.into()], "string");
+  }
+  for x in ["true", "false", "null", "1", "\"true\"", "[true]"] {
+    add("not", vec![x.into()], "not");
+  }
+  let texts = ["1", "12", "1.5", "-1.5", "1 000", "1,000.50", "1.000,50", "1 000 000,25", "", " 1", "1e3", "+5", "5.", ".5", "abc", "1,5", "1.5.5", "-", "Infinity", "NaN", "١٢", "1_000", "00012", "0.10", "12345678901234567890123456789012345", "-0"];
+  let seps = ["null", "\" \"", "\".\"", "\",\"", "\";\"", "\"\"", "1"];
+  for t in texts {
+    for g in seps {
+      for d in ["null", "\".\"", "\",\"", "\" \"", "1"] {
+        add("number", vec![lit_str(t), g.into(), d.into()], "number");
+      }
+    }
+  }
+  add("number", vec!["1".into(), "null".into(), "null".into()], "number");
+  for x in ["null", "\"a\"", "\"a\\\"b\"", "true", "false", "1", "-12", "100", "[]", "[1, \"a\", true, null]", "[\"a\\\"b\"]", "[[1], [\"x\", [null]]]", "{a: \"x\\\"y\", b: [\"q\"]}", "[{a: 1}]", "{}"] {
+    add("string", vec![x.into()], "string");
+  }
+
+  // ---------------------------------------------------------------- every arity 0..5 with arbitrary arguments
+  for bif in BIFS {
+    for arity in 0..=5usize {
+      for _ in 0..(3 * scale) {
+        let args: Vec<String> = (0..arity)
+          .map(|_| match rng.below(6) {
+            0 => rand_list(rng, 4, 1),
+            1 => lit_str(&rand_string(rng, 4)),
+            2 => rng.pick(&positions(3)).clone(),
+            3 => "{a: 1}".to_string(),
+            _ => rand_item(rng, 1),
+          })
+          .collect();
+        add(bif, args, "any-arity");
+      }
+    }
+  }
+  calls
+}
+
+/// numbers by value: `(n neg coeff exp)` without trailing zeros, every zero alike
+fn canon(s: &Sexp) -> Sexp {
+  match s {
+    Sexp::List(xs) => {
+      if xs.len() == 4 && xs[0].as_atom() == Some("n") {
+        if let (Some(neg), Some(c), Some(e)) = (xs[1].as_atom(), xs[2].as_atom(), xs[3].as_atom()) {
+          let mut digits = c.trim_start_matches('0').to_string();
+          let mut exp: i64 = e.parse().unwrap_or(0);
+          if digits.is_empty() {
+            return Sexp::tagged("n", vec![Sexp::atom("0"), Sexp::atom("0"), Sexp::atom("0")]);
+          }
+          while digits.ends_with('0') {
+            digits.pop();
+            exp += 1;
+          }
+          return Sexp::tagged("n", vec![Sexp::atom(neg), Sexp::atom(digits), Sexp::int(exp)]);
+        }
+      }
+      Sexp::List(xs.iter().map(canon).collect())
+    }
+    a => a.clone(),
+  }
+}
+
+/// The shared encoding reads a number from its plain text, which cannot show a positive
+/// exponent (`1E+3` prints as `1000`): a positive exponent is written out on both sides.
+/// Everything else (fraction digits, trailing zeros after the point, the sign of zero) is
+/// compared exactly.
+fn plain_exp(s: &Sexp) -> Sexp {
+  match s {
+    Sexp::List(xs) => {
+      if xs.len() == 4 && xs[0].as_atom() == Some("n") {
+        if let (Some(neg), Some(c), Some(e)) = (xs[1].as_atom(), xs[2].as_atom(), xs[3].as_atom()) {
+          let exp: i64 = e.parse().unwrap_or(0);
+          if exp > 0 && exp < 7000 {
+            let digits = if c == "0" { "0".to_string() } else { format!("{}{}", c, "0".repeat(exp as usize)) };
+            return Sexp::tagged("n", vec![Sexp::atom(neg), Sexp::atom(digits), Sexp::atom("0")]);
+          }
+        }
+      }
+      Sexp::List(xs.iter().map(plain_exp).collect())
+    }
+    a => a.clone(),
+  }
+}
+
+fn same_as_model(shown: &str, ans: &str) -> bool {
+  if shown == ans {
+    return true;
+  }
+  match (Sexp::parse(shown), Sexp::parse(ans)) {
+    (Some(a), Some(b)) => plain_exp(&a) == plain_exp(&b),
+    _ => false,
+  }
+}
+
+fn decode_str(s: &Sexp) -> String {
+  match s {
+    Sexp::List(xs) => xs.iter().skip(1).filter_map(|x| x.as_atom().and_then(|a| a.parse::<u32>().ok()).and_then(char::from_u32)).collect(),
+    _ => String::new(),
+  }
+}
+
+enum Impl {
+  Val(Value),
+  Panic(String),
+}
+
+fn run_impl(scope: &Scope, text: &str) -> Impl {
+  match guarded(|| crate::c09::eval_text(scope, text)) {
+    Ok(v) => Impl::Val(v),
+    Err(m) => Impl::Panic(m),
+  }
+}
+
+fn show_impl(i: &Impl) -> String {
+  match i {
+    Impl::Val(v) => match value_sexp(v) {
+      Some(s) => format!("(ok {})", s),
+      None => format!("(unencodable {})", v),
+    },
+    Impl::Panic(m) => format!("(panic {})", m),
+  }
+}
+
+/// has a numeric argument an integer value written with fraction digits (`2.0`)?
+fn has_fractional_integer(args: &[String]) -> bool {
+  args.iter().any(|a| {
+    let t = a.trim_start_matches('-');
+    match t.split_once('.') {
+      Some((i, f)) => !i.is_empty() && i.chars().all(|c| c.is_ascii_digit()) && !f.is_empty() && f.chars().all(|c| c == '0'),
+      None => false,
+    }
+  })
+}
+
+/// A stable, specific name for the way an implementation answer misses the specification.
+fn classify(call: &Call, imp: &Impl, spec: &Sexp) -> String {
+  let bif = call.bif;
+  if let Impl::Panic(_) = imp {
+    return format!("panic in {}", bif);
+  }
+  let impl_null = matches!(imp, Impl::Val(Value::Null(_)));
+  match bif {
+    "substring" | "sublist" | "insert before" | "remove" if impl_null && has_fractional_integer(&call.args) => {
+      format!("{}: integer-valued number written with fraction digits is rejected", bif)
+    }
+    "all" | "any" => format!("{}: result depends on the order of null / non-boolean items", bif),
+    "max" if call.args.iter().any(|a| a.contains("null")) => "max: null items after the first are skipped".to_string(),
+    "replace" => {
+      if let (Impl::Val(Value::String(s)), Some(_)) = (imp, spec.as_list()) {
+        if decode_str(spec).trim() == s.as_str() {
+          return "replace: the result is trimmed".to_string();
+        }
+      }
+      "replace deviates from its specification".to_string()
+    }
+    "get value" if call.args.len() == 2 && call.args[1].contains(' ') => "get value: the key is trimmed".to_string(),
+    "number" if !impl_null && spec.as_atom() == Some("null") => "number: text that is not a FEEL numeric literal is accepted".to_string(),
+    _ => format!("{} deviates from its specification", bif),
+  }
+}
+
+fn input_of(call: &Call, text: &str) -> String {
+  let mut v = vec![call.bif.to_string()];
+  v.extend(call.args.iter().cloned());
+  format!("{} ;; {}", text, serde_json::to_string(&v).unwrap())
+}
+
+pub fn run(cfg: &Cfg) -> Report {
+  let scope = Scope::default();
+  if cfg.extra.iter().any(|x| x == "--probe") {
+    use std::io::BufRead;
+    for line in std::io::stdin().lock().lines() {
+      let line = line.unwrap();
+      println!("{}  =>  {}", line, show_impl(&run_impl(&scope, &line)));
+    }
+    std::process::exit(0);
+  }
+  let mut rep = Report::new(
+    "C08",
+    "FEEL invocations f(args) and f(name: arg, …) of the 37 built-ins of the property: substring over strings of 0..8 ASCII / BMP / supplementary characters with every position and length in -(n+2)..n+2, 0, non-integers, 2.0-style integers and usize/isize bounds; sublist / insert before / remove over lists of length 0..8 (duplicates, nested lists, nulls, contexts) with the same position grid; string pairs with the match taken from every cut of the input; all/any over every list of {true,false,null,1} up to length 3; aggregates over random number / string lists incl. the varargs form; number() over a text × separator grid; every built-in with every arity 0..5 and arbitrary arguments. Non-trivial: the implementation's positional answer is not null; distinct by request line.",
+  );
+  let mut model = Model::start(&cfg.driver);
+  let mut rng = Rng::new(cfg.seed);
+  let thorough = cfg.tier == "thorough";
+
+  let calls: Vec<Call> = if let Some(path) = &cfg.replay {
+    // a replay file carries the call after " ;; " as a JSON array [bif, arg…]
+    let text = std::fs::read_to_string(path).expect("replay file");
+    let j: serde_json::Value = serde_json::from_str(&text).expect("replay json");
+    let input = j["input"].as_str().unwrap_or("");
+    let tail = input.split(" ;; ").nth(1).unwrap_or("[]");
+    let v: Vec<String> = serde_json::from_str(tail).unwrap_or_default();
+    match v.split_first() {
+      Some((b, args)) => match BIFS.iter().find(|x| **x == b.as_str()) {
+        Some(bif) => vec![Call { bif, args: args.to_vec(), family: "replay" }],
+        None => vec![],
+      },
+      None => vec![],
+    }
+  } else {
+    generate(&mut rng, thorough)
+  };
+
+  // the tables the driver was built from: which signatures differ
+  let off = model.ask("(c08 offending)");
+  rep.extra.insert("offending_signatures".into(), json!(off));
+
+  // argument text -> S-expression of the value the implementation gives it
+  let mut arg_cache: HashMap<String, Option<String>> = HashMap::new();
+  let mut enc = |text: &str| -> Option<String> {
+    if let Some(r) = arg_cache.get(text) {
+      return r.clone();
+    }
+    let r = match guarded(|| crate::c09::eval_text(&scope, text)) {
+      Ok(Value::Null(Some(_))) => None, // an argument that does not evaluate (parse error …)
+      Ok(v) => value_sexp(&v).map(|s| s.to_string()),
+      Err(_) => None,
+    };
+    arg_cache.insert(text.to_string(), r.clone());
+    r
+  };
+
+  struct Done {
+    call: Call,
+    pos_text: String,
+    pos: Impl,
+    named_text: Option<String>,
+    named: Option<Impl>,
+    req_pos: Option<usize>,
+    req_named: Option<usize>,
+    req_spec: Option<usize>,
+  }
+  let mut done: Vec<Done> = vec![];
+  let mut reqs: Vec<String> = vec![];
+  for call in calls {
+    let pos_text = format!("{}({})", call.bif, call.args.join(", "));
+    let pos = run_impl(&scope, &pos_text);
+    let encs: Option<Vec<String>> = call.args.iter().map(|a| enc(a)).collect();
+    let name_sexp = Sexp::str(call.bif).to_string();
+    let (mut req_pos, mut req_named, mut req_spec) = (None, None, None);
+    let mut named_text = None;
+    let mut named = None;
+    let sig = signature(call.bif);
+    let named_ok = match &sig {
+      Some((names, required)) => call.args.len() >= *required && call.args.len() <= names.len(),
+      None => false,
+    };
+    if named_ok {
+      let (names, _) = sig.as_ref().unwrap();
+      let parts: Vec<String> = names.iter().zip(call.args.iter()).map(|(n, a)| format!("{}: {}", n, a)).collect();
+      let t = format!("{}({})", call.bif, parts.join(", "));
+      named = Some(run_impl(&scope, &t));
+      named_text = Some(t);
+    }
+    if let Some(encs) = &encs {
+      // function values (sort) are not sent to the model
+      if !call.args.iter().any(|a| a.starts_with("function")) {
+        req_pos = Some(reqs.len());
+        reqs.push(format!("(c08 call checked {} positional {})", name_sexp, encs.join(" ")));
+        req_spec = Some(reqs.len());
+        reqs.push(format!("(c08 spec {} {})", name_sexp, encs.join(" ")));
+        if named_ok {
+          let (names, _) = sig.as_ref().unwrap();
+          let kvs: Vec<String> = names.iter().zip(encs.iter()).map(|(n, e)| format!("({} {})", Sexp::str(n), e)).collect();
+          req_named = Some(reqs.len());
+          reqs.push(format!("(c08 call checked {} named {})", name_sexp, kvs.join(" ")));
+        }
+      }
+    }
+    done.push(Done { call, pos_text, pos, named_text, named, req_pos, req_named, req_spec });
+  }
+  let answers = model.ask_batch(&reqs);
+
+  let mut unmodelled = 0u64;
+  let mut nospec = 0u64;
+  for d in &done {
+    let bif = d.call.bif;
+    let nontrivial = matches!(&d.pos, Impl::Val(v) if !matches!(v, Value::Null(_)));
+    rep.case(&d.pos_text, nontrivial);
+    rep.hit(&format!("family:{}", d.call.family));
+    rep.hit(&format!("bif:{}", bif));
+    rep.hit(&format!("arity:{}", d.call.args.len()));
+    rep.hit(match &d.pos {
+      Impl::Val(Value::Null(_)) => "result:null",
+      Impl::Val(_) => "result:value",
+      Impl::Panic(_) => "result:panic",
+    });
+    let input = input_of(&d.call, &d.pos_text);
+    let shown = show_impl(&d.pos);
+    // ---- no panic (C05 a)
+    if let Impl::Panic(m) = &d.pos {
+      rep.disagree(Kind::ImplVsSpec, "no_panic", &format!("panic in {} ({})", bif, m), &input, &format!("panic: {}", m), "a value (null outside the domain)");
+    }
+    if let (Some(Impl::Panic(m)), Some(t)) = (&d.named, &d.named_text) {
+      rep.disagree(Kind::ImplVsSpec, "no_panic", &format!("panic in {} ({})", bif, m), &input_of(&d.call, t), &format!("panic: {}", m), "a value (null outside the domain)");
+    }
+    // ---- implementation = model (positional)
+    if let Some(i) = d.req_pos {
+      let ans = &answers[i];
+      if ans == "(unmodelled)" {
+        unmodelled += 1;
+        rep.hit(&format!("unmodelled:{}", bif));
+      } else {
+        let same = match &d.pos {
+          Impl::Val(_) => same_as_model(&shown, ans),
+          Impl::Panic(_) => ans.starts_with("(panic "),
+        };
+        rep.hit(if ans.starts_with("(panic ") { "model:panic" } else { "model:ok" });
+        if !same {
+          rep.disagree(Kind::ImplVsModel, "core", &format!("{} differs from the model (positional)", bif), &input, &shown, ans);
+        }
+        if rep.samples.len() < 10 && nontrivial && rep.samples.iter().all(|s| s["bif"] != json!(bif)) {
+          rep.sample(json!({"bif": bif, "expression": d.pos_text, "request": reqs[i], "implementation": shown, "model": ans}));
+        }
+      }
+    }
+    // ---- implementation = model (named)
+    if let (Some(i), Some(n), Some(t)) = (d.req_named, &d.named, &d.named_text) {
+      let ans = &answers[i];
+      if ans != "(unmodelled)" {
+        let sn = show_impl(n);
+        let same = match n {
+          Impl::Val(_) => same_as_model(&sn, ans),
+          Impl::Panic(_) => ans.starts_with("(panic "),
+        };
+        if !same {
+          rep.disagree(Kind::ImplVsModel, "named", &format!("{} differs from the model (named)", bif), &input_of(&d.call, t), &sn, ans);
+        }
+      }
+    }
+    // ---- implementation = specification
+    if let Some(i) = d.req_spec {
+      let ans = &answers[i];
+      if ans == "(nospec)" {
+        nospec += 1;
+      } else if let Some(Sexp::List(xs)) = Sexp::parse(ans) {
+        if xs.len() == 2 && xs[0].as_atom() == Some("spec") {
+          let want = canon(&xs[1]);
+          let ok = match &d.pos {
+            Impl::Val(v) => value_sexp(v).map(|s| canon(&s) == want).unwrap_or(false),
+            Impl::Panic(_) => false,
+          };
+          rep.hit(if ok { "spec:agrees" } else { "spec:differs" });
+          if !ok {
+            if let Impl::Val(_) = &d.pos {
+              rep.disagree(Kind::ImplVsSpec, "spec", &classify(&d.call, &d.pos, &xs[1]), &input, &shown, &format!("(ok {})", xs[1]));
+            }
+          }
+        }
+      }
+    }
+    // ---- named = positional on the implementation alone
+    if let (Some(n), Some(t)) = (&d.named, &d.named_text) {
+      let a = show_impl(&d.pos);
+      let b = show_impl(n);
+      rep.evaluations += 1;
+      rep.hit("named:compared");
+      if a != b {
+        // a single argument that is not a list, given to a parameter declared as a list
+        let single_item = d.call.args.len() == 1 && !d.call.args[0].starts_with('[') && signature(bif).map(|s| s.0 == vec!["list"]).unwrap_or(false);
+        let sig = if single_item {
+          format!("named invocation rejects a single item for the parameter list: {}", bif)
+        } else {
+          format!("named invocation differs from positional: {}", bif)
+        };
+        rep.disagree(
+          Kind::ImplVsSpec,
+          "named_eq_positional",
+          &sig,
+          &format!("{} vs {} ;; {}", d.pos_text, t, input.split(" ;; ").nth(1).unwrap_or("")),
+          &format!("named {}", b),
+          &format!("positional {}", a),
+        );
+      }
+    }
+  }
+  // ---- named parameters may be written in any order
+  if cfg.replay.is_none() {
+    let mut seen_rev = 0u64;
+    for d in &done {
+      if let (Some(Impl::Val(nv)), Some((names, _))) = (&d.named, signature(d.call.bif)) {
+        if d.call.args.len() >= 2 && d.call.args.len() <= names.len() && seen_rev < 4000 {
+          seen_rev += 1;
+          let mut parts: Vec<String> = names.iter().zip(d.call.args.iter()).map(|(n, a)| format!("{}: {}", n, a)).collect();
+          parts.reverse();
+          let t = format!("{}({})", d.call.bif, parts.join(", "));
+          let r = run_impl(&scope, &t);
+          rep.evaluations += 1;
+          rep.hit("named:reversed-order");
+          let same = match &r {
+            Impl::Val(v) => value_sexp(v).map(|x| x.to_string()) == value_sexp(nv).map(|x| x.to_string()),
+            Impl::Panic(_) => false,
+          };
+          if !same {
+            rep.disagree(
+              Kind::ImplVsSpec,
+              "named_order",
+              &format!("named invocation depends on the order of the parameters: {}", d.call.bif),
+              &input_of(&d.call, &t),
+              &show_impl(&r),
+              &show_impl(&Impl::Val(nv.clone())),
+            );
+          }
+        }
+      }
+    }
+    // ---- expressions whose arguments are not literals: (expression, FEEL text of the specified value)
+    let special: Vec<(&str, &str, &str)> = vec![
+      ("string([not(1)])", "\"[null]\"", "string: the trace message of a null item is printed"),
+      ("string({a: not(1)})", "\"{a: null}\"", "string: the trace message of a null item is printed"),
+      ("string([1, null])", "\"[1, null]\"", "string: the trace message of a null item is printed"),
+      ("string length(string(not(1)))", "null", "string deviates from its specification"),
+      ("count(append([1], not(1)))", "2", "append deviates from its specification"),
+      ("substring(\"foobar\", 8 - 5)", "\"obar\"", "substring deviates from its specification"),
+      ("sublist([1, 2, 3], 4 - 2, 3 - 2)", "[2]", "sublist deviates from its specification"),
+    ];
+    for (expr, want, sig) in special {
+      let got = run_impl(&scope, expr);
+      let exp = run_impl(&scope, want);
+      rep.case(expr, true);
+      rep.hit("family:special");
+      let same = match (&got, &exp) {
+        (Impl::Val(a), Impl::Val(b)) => value_sexp(a).map(|x| canon(&x)) == value_sexp(b).map(|x| canon(&x)),
+        _ => false,
+      };
+      if !same {
+        rep.disagree(Kind::ImplVsSpec, "special", sig, &format!("{} ;; []", expr), &show_impl(&got), &show_impl(&exp));
+      }
+    }
+  }
+  rep.extra.insert("unmodelled_calls".into(), json!(unmodelled));
+  rep.extra.insert("calls_without_specification".into(), json!(nospec));
+  rep.extra.insert("integer_mode_observed".into(), json!("checked (the harness build has overflow checks on)"));
+  rep.model_requests = model.requests;
+  rep
 }
